@@ -68,6 +68,31 @@ def f2_known(chk):
         chk.notes["f2_not_reproduced"] = True
 
 
+def peer_selection(chk):
+    """The code's own periodic round (gossipRound): 300 rounds of one node in a five-node cluster in which one
+    peer left, two are unreachable (one of them also left) and one is live; TLC judges every round
+    (PeerSelection: one live peer if any, one unreachable peer if any, nobody else) and the whole run
+    (PeerSelectionFair: every candidate was addressed at least once - an unreachable node keeps being probed,
+    which is what lets it be restored when it is heard from again)."""
+    from checks import run_schedules
+    nodes = ["a", "b", "c", "d", "e"]
+    behs = []
+    for variant in range(3):
+        beh = [["UpsertLocal", "b", "k1", "x"], ["Closure", -1, 30],
+               ["SetSuspect", "a", "c", True], ["SetSuspect", "a", "d", True], ["UpdateLiveness", "a"]]
+        if variant >= 1:
+            beh += [["LeaveLocal", "e"], ["LeaveStream", "e", "a"]]
+        if variant == 2:
+            beh += [["LeaveLocal", "d"], ["LeaveStream", "d", "a"], ["SetSuspect", "a", "b", True],
+                    ["UpdateLiveness", "a"]]
+        beh.append(["SelectionStats", "a", 300])
+        behs.append(beh)
+    sched = {"nodes": nodes, "initKnown": True, "streams": True, "behaviours": behs}
+    v, st = run_schedules(chk, sched, "peer-selection", nodes, invariants=["KeysUnique", "NoStepViolation"])
+    if st.get("by_op", {}).get("SelectionEnd", 0) != 3 or st.get("by_op", {}).get("GossipRound", 0) < 900:
+        raise vp.Machinery("vacuous run: the peer selection scenarios did not execute")
+
+
 @prop("C11")
 def c11(chk):
     chk.rule = ("behaviours = transition cover / simulations / random schedules over leave, crash, suspicion "
@@ -93,5 +118,6 @@ def c11(chk):
     res = G.model_check(chk, "C11-unmasked-F2", um, ["NoRelearn"], [], module="Routing", spec="RSpec",
                         expect_violation="NoRelearn", timeout=900)
     chk.notes["f2_reachable_in_unmasked_model"] = res.violated == "NoRelearn"
+    peer_selection(chk)
     f2_known(chk)
     f4_known_generic(chk, "C11")
